@@ -38,6 +38,57 @@ func Check(v any) error {
 		return errors.New("jsonapi: ID field's api tag is empty")
 	}
 
+	if idField.Type.Kind() != reflect.String {
+		return errors.New("jsonapi: ID field is not a string")
+	}
+
+	if idField.Tag.Get("json") != "id" {
+		return errors.New("jsonapi: ID field's json tag is not \"id\"")
+	}
+
+	// Check field names
+	names := map[string]bool{"id": true}
+
+	for i := 0; i < value.NumField(); i++ {
+		sf := value.Type().Field(i)
+		api := sf.Tag.Get("api")
+
+		if sf.Name == "ID" {
+			continue
+		}
+
+		if api == "attr" || api == "rel" || strings.HasPrefix(api, "rel,") {
+			name := sf.Tag.Get("json")
+			if name == "" || sf.PkgPath != "" {
+				return fmt.Errorf(
+					"jsonapi: field %q must be exported and have a json tag",
+					sf.Name,
+				)
+			}
+
+			if names[name] {
+				return fmt.Errorf("jsonapi: field name %q is used more than once", name)
+			}
+
+			names[name] = true
+		}
+	}
+
+	// Fields that are not part of the resource must not use one of its
+	// names either, since fields are looked up by their json tag.
+	for i := 0; i < value.NumField(); i++ {
+		sf := value.Type().Field(i)
+		api := sf.Tag.Get("api")
+
+		if sf.Name == "ID" || api == "attr" || api == "rel" || strings.HasPrefix(api, "rel,") {
+			continue
+		}
+
+		if name := sf.Tag.Get("json"); name != "" && names[name] {
+			return fmt.Errorf("jsonapi: field name %q is used more than once", name)
+		}
+	}
+
 	// Check attributes
 	for i := 0; i < value.NumField(); i++ {
 		sf := value.Type().Field(i)
@@ -76,10 +127,10 @@ func Check(v any) error {
 	for i := 0; i < value.NumField(); i++ {
 		sf := value.Type().Field(i)
 
-		if strings.HasPrefix(sf.Tag.Get("api"), "rel,") {
+		if sf.Tag.Get("api") == "rel" || strings.HasPrefix(sf.Tag.Get("api"), "rel,") {
 			s := strings.Split(sf.Tag.Get("api"), ",")
 
-			if len(s) < 2 || len(s) > 3 {
+			if len(s) < 2 || len(s) > 3 || s[1] == "" {
 				return fmt.Errorf(
 					"jsonapi: api tag of relationship %q of struct %q is invalid",
 					sf.Name,
